@@ -10,6 +10,8 @@ import OmplModel.Props.C11
 #print axioms OmplModel.Props.C11.handle_names_one_element
 #print axioms OmplModel.Props.C11.build_establishes
 #print axioms OmplModel.Props.C11.sort_correct
+#print axioms OmplModel.Props.C11.percolateUp_as_coded
+#print axioms OmplModel.Props.C11.percolateDown_as_coded
 #print axioms OmplModel.Props.C11.ltNat_swo
 #print axioms OmplModel.Props.C11.f1Heap_ok
 #print axioms OmplModel.Props.C11.removePosOld_breaks
